@@ -20,6 +20,7 @@ fn main() {
             // the channel promises never to block its callers: a case that does not return is a violation
             s.hang_is_violation(120);
             s.require("self-reported-metrics", 2000);
+            s.require("send-inside-receiver-allocation", 1000);
         s.require("flush-while-in-batch", 2000);
         s.require("flush-during-retry-wait", 500);
         s.require("flush-with-pending", 2000);
@@ -29,6 +30,8 @@ fn main() {
             let max_len = if s.quick() { 6 } else { 7 };
             s.enumerate("e2-small-scope", e2::small_cases(max_len, &[1, 2]), |c, cx| e2::check(&c.to_case(), Prop::C07, cx));
             s.gen("file-e2e-flush", s.n(3_000, 100_000), fsim::e2e::flush_case, |c, cx| fsim::e2e::check_flush(c, cx));
+            // OTLP end-to-end clause of this property (real emit_otlp emitter against the scripted collector; harness/c12/src/e2e.rs)
+            c12::e2e::register_c07(s);
             s.gen("e7-os-threads", s.n(3_000, 150_000), || e7::workload(1), |c, cx| e7::check(c, Prop::C07, cx));
         },
     )
